@@ -24,6 +24,7 @@ type ethInv struct {
 		minGasPrice                  *big.Int // 18-decimal fixed point (x10^18)
 		minGasMult                   *big.Int // 18-decimal fixed point
 		stores                       sim.Snapshot
+		mem                          string
 		recipientAddr                common.Address
 		blockGas                     uint64
 	}
@@ -92,6 +93,7 @@ func (inv *ethInv) Before(m *Machine, a *Action) {
 	inv.pre.minGasPrice = new(big.Int).Set(fp.MinGasPrice.BigInt())
 	inv.pre.minGasMult = new(big.Int).Set(fp.MinGasMultiplier.BigInt())
 	inv.pre.stores = c.Snap(ctx, ethUntouched...)
+	inv.pre.mem = sim.OracleMemDump()
 	inv.pre.blockGas = inv.blockGasWanted
 }
 
@@ -240,6 +242,11 @@ func (inv *ethInv) After(m *Machine, a *Action, o Outcome) error {
 	if failed {
 		if d := sim.Diff(inv.pre.stores, c.Snap(ctx, ethUntouched...)); len(d) > 0 {
 			return violation("C19.I6.failed-but-changed", "%s failed (%s) but changed state: %s", a.String(), o.Note, d[0].String())
+		}
+		// the oracle keeps parameters and rounds in process memory and writes them to its store
+		// at the end of the block: what a reverted execution left there comes back as state
+		if mem := sim.OracleMemDump(); mem != inv.pre.mem {
+			return violation("C19.I6.failed-but-changed-oracle-memory", "%s failed (%s) but the oracle's in-memory state (written to the store at the end of the block) changed", a.String(), o.Note)
 		}
 	}
 	return nil
